@@ -1,6 +1,8 @@
 """C18: a cadence is a consistency-guarded list of frames with stable order labels.
 Legs: M (Cadence_MC exhaustive), R (every behaviour of Cadence_Gen replayed on real objects,
 plus random deeper behaviours from the TLC simulator)."""
+import os
+
 from .. import tlc
 from ..adapters import cadence as ad
 
@@ -47,13 +49,79 @@ def replay_all(ctx, behaviours, label, pids=("C18",)):
     return nviol
 
 
+def trace_leg(ctx, pid, inject_heavy=False):
+    """Leg T: free-form recorded executions (several cadences sharing frames, up to 16 objects, deep copies, pickles,
+    too-short order strings, cadence-wide injections with raising callbacks) and the repository's own cadence tests,
+    validated event by event against CadenceTrace.tla.  A rejection names the failing clauses; clauses are owned by
+    C18 (list / label / aggregate semantics, continuity between events) or C16 (injection protocol, slew)."""
+    import json
+    import subprocess
+    import sys
+    from .. import trace
+    from ..adapters import cadtrace
+    n = ctx.pick(150, 2500)
+    traces = [cadtrace.drive(1000003 * ctx.seed + k + (500000 if inject_heavy else 0), nops=ctx.pick(14, 18), inject_heavy=inject_heavy)
+              for k in range(n)]
+    origin = ["driver seed %d" % (1000003 * ctx.seed + k + (500000 if inject_heavy else 0)) for k in range(n)]
+    out = os.path.join(ctx.outdir, "repo_cadence_traces.json")
+    repo = os.environ.get("VERIF_REPO", "/repo")
+    env = dict(os.environ)
+    env.update({"PYTHONPATH": os.path.join(os.path.dirname(os.path.dirname(os.path.dirname(os.path.abspath(__file__)))), "harness") + os.pathsep + repo,
+                "VERIF_CAD_TRACE_OUT": out, "TQDM_DISABLE": "1", "MPLBACKEND": "Agg"})
+    p = subprocess.run([sys.executable, "-m", "pytest", "-q", "-p", "no:cacheprovider", "-p", "verif_cadence_recorder",
+                        "tests/test_cadence.py", "tests/test_plots.py"], cwd=repo, env=env, stdout=subprocess.PIPE,
+                       stderr=subprocess.STDOUT, universal_newlines=True, timeout=900)
+    nrepo = 0
+    if os.path.exists(out):
+        rt = json.load(open(out))
+        nrepo = len(rt)
+        traces += rt
+        origin += ["repository test " + t["h"].get("test", "?") for t in rt]
+        os.remove(out)
+    if nrepo == 0:
+        raise RuntimeError("no cadence traces recorded from the repository's tests:\n" + p.stdout[-800:])
+    nev = sum(len(t["ev"]) for t in traces)
+    kinds = {}
+    for t in traces:
+        for ev in t["ev"]:
+            kinds[ev["e"]] = kinds.get(ev["e"], 0) + 1
+    accepted, rejects, res = trace.validate("CadenceTrace", "CadenceTrace.cfg", traces, ctx.outdir)
+    ctx.add_tlc(res, "CadenceTrace (%d driver + %d repository-test traces, %d events)" % (n, nrepo, nev), "T")
+    ctx.traces += len(traces)
+    ctx.steps += nev
+    ctx.notes["trace_events_by_kind"] = kinds
+    for need in ("New", "Insert", "SetItem", "GetSlice", "GetIdx", "ByLabel", "SetOrder", "OverwriteTimes", "InjBegin", "Inject", "InjEnd"):
+        if kinds.get(need, 0) == 0:
+            raise RuntimeError("vacuity: no %s event in any recorded trace" % need)
+    if len(ctx.samples) < 4:
+        ctx.sample({"leg": "T", "origin": origin[0], "events": [[e["e"], e.get("a"), e.get("st")] for e in traces[0]["ev"][:12]]})
+    for r in rejects:
+        t = traces[r["reject"] - 1]
+        at = r["at"]
+        ev = t["ev"][at - 1] if at - 1 < len(t["ev"]) else {"e": "(end)"}
+        why = sorted(r["why"])
+        mine = [w for w in why if w.startswith(pid + "_")]
+        if pid == "C18":
+            mine += [w for w in why if w.startswith("adopt_") or w.startswith("no-action")]
+            if not origin[r["reject"] - 1].startswith("repository"):
+                mine += [w for w in why if w.startswith("cont_")]
+        if not mine:
+            ctx.notes["rejected_for_other_property"] = ctx.notes.get("rejected_for_other_property", 0) + 1
+            continue
+        a = ev.get("a") or {}
+        args = {"event": ev["e"], "action": ev["e"], "clauses": "+".join(mine), "status": ev.get("st"),
+                "ordered": (ev.get("b") or {}).get("ordered"), "form": a.get("form")}
+        ctx.violation("CadenceTrace", "trace:" + mine[0], args,
+                      {"origin": origin[r["reject"] - 1], "event_index": at, "failing_clauses": why, "event": ev,
+                       "previous_events": [[e["e"], e.get("a"), e.get("st")] for e in t["ev"][max(0, at - 6):at - 1]]})
+
+
 def run(ctx):
     ctx.notes["rule"] = ("behaviours = operation sequences generated by TLC from Cadence.tla (exhaustive to MaxOps "
                          "from 11 start lists x {plain, ordered}; plus random simulator behaviours); distinct = "
                          "distinct (action, outcome) sequences with distinct final list")
     ctx.assume("frame pool: 4 compatible frames (one descending twin), 4 frames differing in one guarded attribute, "
                "one non-frame object; integer times so float arithmetic is exact")
-    ctx.assume("tuple index arrays are not exercised (numpy treats a tuple as a multi-dimensional index)")
     model_check(ctx, ctx.pick(2, 3))
     # leg R, exhaustive small depth
     gen_ops = ctx.pick(2, 2)
@@ -70,5 +138,6 @@ def run(ctx):
     res = tlc.run(MODULE, cfg, ctx.outdir, workers=4, simulate=num // 4, depth=depth + 2, seed=ctx.seed)
     ctx.add_tlc(res, "Cadence_Gen simulate depth=%d num=%d" % (depth, num), "R-generate")
     replay_all(ctx, res.emitted, "Cadence_Gen simulate depth %d" % depth)
+    trace_leg(ctx, "C18")
     ctx.notes["behaviours_exhaustive_depth"] = gen_ops
     ctx.notes["behaviours_random_depth"] = depth
